@@ -1125,6 +1125,9 @@ def call_attr(eng, node, fn, st):
         if hook:
             return with_args(eng, node, st, lambda s, a, k: hook(eng, s, a, k))
     # super().m(...)
+    if isinstance(fn.value, ast.Call) and isinstance(fn.value.func, ast.Name) and fn.value.func.id == "super" \
+            and fn.attr == "__new__" and "self" not in st.env and eng.reg.specfuns.get("super_new"):
+        return with_args(eng, node, st, lambda s, a, k: eng.reg.specfuns["super_new"](eng, s, a, k))
     if isinstance(fn.value, ast.Call) and isinstance(fn.value.func, ast.Name) and fn.value.func.id == "super":
         recv = st.env["self"]
         f = eng.table.resolve(eng.self_class or recv.ty.cls, fn.attr, after=eng.cur_class)
